@@ -1,154 +1,142 @@
-import Proofs.XfrFault
+import Proofs.XfrFault2
 /-!
 # C13 — Inbound AXFR/IXFR converges to the server's zone or leaves the zone untouched
 
 Theorems of record about `Model.Xfr` (the model of `dns/xfr.py` `Inbound` driven by the message loop of
-`dns.query._inbound_xfr`).  `run fix c z0 msgs` is what a caller observes after
+`dns.query._inbound_xfr`).  `run true c z0 msgs` is what a caller of the code **as it is** observes after
 `with Inbound(...) as inbound: for each message until done: inbound.process_message(m)`: the exception
-(if any) and the zone afterwards.  `fix = false` is the code as shipped, `fix = true` the repaired
-decision point of DESIGN §6 D11 (surplus after the final SOA is refused *before* committing); the
-check learns at run time which of the two the working tree implements and demands correspondence with it.
-Zones are compared as sets of records (`≃z`).
-
-* convergence: `axfr_converges`, `ixfr_converges` (any chain length, any chunking), `axfr_style_ixfr`,
-  `up_to_date_noop`, `udp_ixfr`;
-* `fault_unchanged`, as a family — each fault class an explicit transformer on accepted (in particular:
-  all valid) streams, result = an error **and** the zone before: `fault_truncate` (ends early, final SOA
-  dropped), `fault_header` (+ `fault_header_rcode`, `fault_header_question`), `fault_wrong_base_serial`,
-  `fault_backwards_serial`, `fault_use_tcp`, `fault_surplus_after_final_soa`, `fault_axfr_first_not_soa`
-  (first SOA dropped or swapped), `fault_duplicate_deletion`;
-* atomicity: `error_implies_unapplied` (all message sequences; repaired variant),
-  `error_implies_unapplied_partial` + `as_shipped_differs_only_by_commit` +
-  `surplus_after_final_soa_as_shipped` (shipped variant: the defect D11, proved in general and at a witness);
-* `serialLt_asymm`, `serialLt_ahead` (RFC 1982), `extract_of_make`.
-
-Faults that the protocol cannot detect (a dropped non-SOA record of an AXFR, a duplicated first SOA of an
-AXFR in its own message, …) complete without error in the code and in the model alike; for them only
-atomicity and the correspondence are claimed.
+(if any) and the zone afterwards.  (`run false` is the same loop without the look-ahead that refuses
+surplus rrsets before committing — the code before commit 3feda1c; it only appears in
+`repair_changed_only_d11` and `before_repair_surplus_was_committed`, the record of what the repair changed.)
+Zones are sets of records `(owner, type, rdata, ttl)` compared by `≃z`: "equal to the server's target
+version" includes the TTLs.  Versions are coherent zones (`Coherent`: one TTL per rrset, a CNAME never next
+to other data, one rdata per singleton type), which is what makes the model's `put` — with the CNAME
+exclusion of `dns.node` and the TTL/singleton rules of `dns.rdataset` — act as plain set insertion.
 -/
 namespace C13
 open Model.Xfr
 
+/-- the type codes and tables the model is instantiated with are the ones the code has now -/
+theorem consts_ok : ConstsC13.soa = soaType ∧ ConstsC13.axfr = axfrType ∧ ConstsC13.ixfr = ixfrType ∧
+    kindOf soaType = .regular ∧ isSingleton soaType = true ∧ kindOf 5 = .cname ∧ isSingleton 5 = true ∧
+    kindOf (46 + 65536 * 5) = .cname ∧ kindOf 47 = .neutral ∧ kindOf 1 = .regular := by
+  decide
+
 /-- **AXFR converges.**  "Feeding an inbound transfer any valid AXFR … response stream (… any division of
 the record stream into messages) leaves the zone equal to the server's target version with its serial."
-For every version `v`, every zone content before, every division of `SOA, body, SOA` into messages. -/
-theorem axfr_converges (fix : Bool) (o : Name) (v : Version) (z0 : Zone) (ser : Option Nat) (msgs : List Msg)
-    (hb : BodyOk o v.body) (hc : Chunks ⟨some o, axfrType, ser, false⟩ (axfrStream o v) msgs) :
-    (run fix ⟨some o, axfrType, ser, false⟩ z0 msgs).err = none ∧
-      (run fix ⟨some o, axfrType, ser, false⟩ z0 msgs).zone ≃z zoneOf o v ∧
-      (run fix ⟨some o, axfrType, ser, false⟩ z0 msgs).zone.serial o = some v.soa.serial := by
-  obtain ⟨s', hf, hd, hz, hs⟩ := axfr_flat o v z0 ser hb
-  rw [both_variants (run_of_flat rfl hc hf hd) fix]
-  exact ⟨rfl, hz, hs⟩
+For every coherent version `v` (TTLs and CNAMEs included), every zone content before, every division of
+`SOA, body, SOA` into messages. -/
+theorem axfr_converges (o : Name) (v : Version) (z0 : Zone) (ser : Option Nat) (msgs : List Msg)
+    (hb : BodyOk o v.body) (hco : Coherent (zoneOf o v))
+    (hc : Chunks ⟨some o, axfrType, ser, false⟩ (axfrStream o v) msgs) :
+    (run true ⟨some o, axfrType, ser, false⟩ z0 msgs).err = none ∧
+      (run true ⟨some o, axfrType, ser, false⟩ z0 msgs).zone ≃z zoneOf o v ∧
+      (run true ⟨some o, axfrType, ser, false⟩ z0 msgs).zone.serial o = some v.soa.rdata.serial := by
+  obtain ⟨s', hf, hd, hz⟩ := axfr_flat o v z0 ser hb hco
+  rw [both_variants (run_of_flat rfl hc hf hd) true]
+  exact ⟨rfl, hz, serial_of_equiv hz hb⟩
 
 /-- **IXFR converges**, chains of any length, any division into messages.  `v0 :: vs` is the chain of zone
 versions from the one we hold to the server's current one; the response carries, per RFC 1995, the
-difference sequences between consecutive versions.  Side conditions: the versions are servable, no older
-version carries the final SOA, the server is not behind us (RFC 1982). -/
-theorem ixfr_converges (fix : Bool) (o : Name) (v0 : Version) (vs : List Version) (z0 : Zone) (msgs : List Msg)
+difference sequences between consecutive versions (on records with their TTLs: an rrset whose TTL changes
+is deleted and added again; an A replaced by a CNAME is deleted, then the CNAME added).  Side conditions:
+the versions are servable, no older version carries the final SOA, the server is not behind us (RFC 1982). -/
+theorem ixfr_converges (o : Name) (v0 : Version) (vs : List Version) (z0 : Zone) (msgs : List Msg)
     (hne : vs ≠ []) (hz0 : z0 ≃z zoneOf o v0) (hv0 : WfVersion o v0) (hvs : ∀ v ∈ vs, WfVersion o v)
-    (hdist : ∀ v ∈ (v0 :: vs).dropLast, v.soa ≠ (lastVersion v0 vs).soa)
-    (hs1 : (lastVersion v0 vs).soa.serial ≠ v0.soa.serial)
-    (hs2 : serialLt (lastVersion v0 vs).soa.serial v0.soa.serial = false)
-    (hc : Chunks ⟨some o, ixfrType, some v0.soa.serial, false⟩ (ixfrStream o v0.soa (diffSteps v0 vs)) msgs) :
-    (run fix ⟨some o, ixfrType, some v0.soa.serial, false⟩ z0 msgs).err = none ∧
-      (run fix ⟨some o, ixfrType, some v0.soa.serial, false⟩ z0 msgs).zone ≃z zoneOf o (lastVersion v0 vs) ∧
-      (run fix ⟨some o, ixfrType, some v0.soa.serial, false⟩ z0 msgs).zone.serial o =
-        some (lastVersion v0 vs).soa.serial := by
-  have hl := lastSoa_diffSteps vs v0
-  have hsteps : diffSteps v0 vs ≠ [] := by cases vs <;> simp_all [diffSteps]
-  have hok := stepsOk_diff (dn := (lastVersion v0 vs).soa) vs v0 z0 hz0 hv0 hvs hdist
-  have hlast : WfVersion o (lastVersion v0 vs) := by
-    clear hok hsteps hl hc hs1 hs2 hdist hz0 hne
-    induction vs generalizing v0 with
-    | nil => exact hv0
-    | cons b rest ih => exact ih b (hvs b (by simp)) (fun v hv => hvs v (by simp [hv]))
-  have hf := ixfr_flat o v0.soa (diffSteps v0 vs) z0 false hsteps (by rw [hl]; exact hs1) (by rw [hl]; exact hs2)
-    (by rw [hl]; exact hok.1)
-  rw [both_variants (run_of_flat rfl hc hf rfl) fix]
-  refine ⟨rfl, ?_, ?_⟩
-  · rw [fin_zone, hl]; exact putSoa_same hok.2 hlast.body
-  · rw [fin_zone, hl]; exact serial_putSoa o _ _
+    (hdist : ∀ v ∈ (v0 :: vs).dropLast, v.soa.rdata ≠ (lastVersion v0 vs).soa.rdata)
+    (hs1 : (lastVersion v0 vs).soa.rdata.serial ≠ v0.soa.rdata.serial)
+    (hs2 : serialLt (lastVersion v0 vs).soa.rdata.serial v0.soa.rdata.serial = false)
+    (hc : Chunks ⟨some o, ixfrType, some v0.soa.rdata.serial, false⟩ (ixfrStream o v0.soa (diffSteps v0 vs)) msgs) :
+    (run true ⟨some o, ixfrType, some v0.soa.rdata.serial, false⟩ z0 msgs).err = none ∧
+      (run true ⟨some o, ixfrType, some v0.soa.rdata.serial, false⟩ z0 msgs).zone ≃z zoneOf o (lastVersion v0 vs) ∧
+      (run true ⟨some o, ixfrType, some v0.soa.rdata.serial, false⟩ z0 msgs).zone.serial o =
+        some (lastVersion v0 vs).soa.rdata.serial := by
+  obtain ⟨s', hf, hd, hz⟩ := ixfr_versions_flat o v0 vs z0 false hne hz0 hv0 hvs hdist hs1 hs2
+  rw [both_variants (run_of_flat rfl hc hf hd) true]
+  exact ⟨rfl, hz, serial_of_equiv hz (wf_lastVersion vs v0 hv0 hvs).body⟩
+
+/-- **What an IXFR stream denotes.**  For *any* difference sequences (not only the ones a correct server
+computes) that can be applied — deletions name present records once, additions are data of the zone, the
+zones passed through are coherent — the transfer completes and the zone is exactly what applying the
+sequences to the zone before gives, under the final SOA.  (A server that omits a deletion, or a stream in
+which a record moved across the delete/add boundary, is believed: the result is the zone the stream
+denotes, which need not be the server's.) -/
+theorem ixfr_denotes (o : Name) (cur : Soa) (steps : List Step) (z0 : Zone) (msgs : List Msg) (hne : steps ≠ [])
+    (hs1 : (lastSoa cur steps).rdata.serial ≠ cur.rdata.serial)
+    (hs2 : serialLt (lastSoa cur steps).rdata.serial cur.rdata.serial = false)
+    (hc0 : Coherent z0) (hok : StepsOk o (lastSoa cur steps) cur z0 steps)
+    (hc : Chunks ⟨some o, ixfrType, some cur.rdata.serial, false⟩ (ixfrStream o cur steps) msgs) :
+    (run true ⟨some o, ixfrType, some cur.rdata.serial, false⟩ z0 msgs).err = none ∧
+      (run true ⟨some o, ixfrType, some cur.rdata.serial, false⟩ z0 msgs).zone ≃z
+        putSoa o (applyAll o z0 steps) (lastSoa cur steps) := by
+  obtain ⟨zf, hf, hq⟩ := ixfr_flat o cur steps z0 false hne hs1 hs2 hc0 hok
+  rw [both_variants (run_of_flat rfl hc hf rfl) true]
+  exact ⟨rfl, hq⟩
 
 /-- **AXFR-style answer to an IXFR request** ("AXFR-style answers to an IXFR request"): the increments
 collected so far are rolled back, a replacement transaction takes the full zone. -/
-theorem axfr_style_ixfr (fix : Bool) (o : Name) (v : Version) (z0 : Zone) (b : Nat) (msgs : List Msg)
-    (hb : BodyOk o v.body) (hne : v.body ≠ []) (hs1 : v.soa.serial ≠ b) (hs2 : serialLt v.soa.serial b = false)
+theorem axfr_style_ixfr (o : Name) (v : Version) (z0 : Zone) (b : Nat) (msgs : List Msg)
+    (hb : BodyOk o v.body) (hco : Coherent (zoneOf o v)) (hne : v.body ≠ [])
+    (hs1 : v.soa.rdata.serial ≠ b) (hs2 : serialLt v.soa.rdata.serial b = false)
     (hc : Chunks ⟨some o, ixfrType, some b, false⟩ (axfrStream o v) msgs) :
-    (run fix ⟨some o, ixfrType, some b, false⟩ z0 msgs).err = none ∧
-      (run fix ⟨some o, ixfrType, some b, false⟩ z0 msgs).zone ≃z zoneOf o v ∧
-      (run fix ⟨some o, ixfrType, some b, false⟩ z0 msgs).zone.serial o = some v.soa.serial := by
-  obtain ⟨s', hf, hd, hz, hs⟩ := axfr_style_flat o v z0 b hb hne hs1 hs2
-  rw [both_variants (run_of_flat rfl hc hf hd) fix]
-  exact ⟨rfl, hz, hs⟩
+    (run true ⟨some o, ixfrType, some b, false⟩ z0 msgs).err = none ∧
+      (run true ⟨some o, ixfrType, some b, false⟩ z0 msgs).zone ≃z zoneOf o v ∧
+      (run true ⟨some o, ixfrType, some b, false⟩ z0 msgs).zone.serial o = some v.soa.rdata.serial := by
+  obtain ⟨s', hf, hd, hz⟩ := axfr_style_flat o v z0 b hb hco hne hs1 hs2
+  rw [both_variants (run_of_flat rfl hc hf hd) true]
+  exact ⟨rfl, hz, serial_of_equiv hz hb⟩
 
 /-- **The already-up-to-date answer** leaves the zone as it is and raises nothing (TCP or UDP). -/
-theorem up_to_date_noop (fix : Bool) (o : Name) (z0 : Zone) (d : Rdata) (udp : Bool) (m : Msg) (more : List Msg)
+theorem up_to_date_noop (o : Name) (z0 : Zone) (d : Soa) (udp : Bool) (m : Msg) (more : List Msg)
     (hh : headerErrOf o ixfrType m = none) (ha : m.answer = [soaRR o d]) :
-    run fix ⟨some o, ixfrType, some d.serial, udp⟩ z0 (m :: more) = ⟨none, z0⟩ :=
-  uptodate_run fix o z0 d udp m more hh ha
+    run true ⟨some o, ixfrType, some d.rdata.serial, udp⟩ z0 (m :: more) = ⟨none, z0⟩ :=
+  uptodate_run true o z0 d udp m more hh ha
 
 /-- **UDP IXFR**: the whole response in one datagram converges like the TCP one. -/
-theorem udp_ixfr (fix : Bool) (o : Name) (v0 : Version) (vs : List Version) (z0 : Zone) (m : Msg)
+theorem udp_ixfr (o : Name) (v0 : Version) (vs : List Version) (z0 : Zone) (m : Msg)
     (hne : vs ≠ []) (hz0 : z0 ≃z zoneOf o v0) (hv0 : WfVersion o v0) (hvs : ∀ v ∈ vs, WfVersion o v)
-    (hdist : ∀ v ∈ (v0 :: vs).dropLast, v.soa ≠ (lastVersion v0 vs).soa)
-    (hs1 : (lastVersion v0 vs).soa.serial ≠ v0.soa.serial)
-    (hs2 : serialLt (lastVersion v0 vs).soa.serial v0.soa.serial = false)
-    (hc : Chunks ⟨some o, ixfrType, some v0.soa.serial, true⟩ (ixfrStream o v0.soa (diffSteps v0 vs)) [m]) :
-    (run fix ⟨some o, ixfrType, some v0.soa.serial, true⟩ z0 [m]).err = none ∧
-      (run fix ⟨some o, ixfrType, some v0.soa.serial, true⟩ z0 [m]).zone ≃z zoneOf o (lastVersion v0 vs) := by
-  have hl := lastSoa_diffSteps vs v0
+    (hdist : ∀ v ∈ (v0 :: vs).dropLast, v.soa.rdata ≠ (lastVersion v0 vs).soa.rdata)
+    (hs1 : (lastVersion v0 vs).soa.rdata.serial ≠ v0.soa.rdata.serial)
+    (hs2 : serialLt (lastVersion v0 vs).soa.rdata.serial v0.soa.rdata.serial = false)
+    (hc : Chunks ⟨some o, ixfrType, some v0.soa.rdata.serial, true⟩ (ixfrStream o v0.soa (diffSteps v0 vs)) [m]) :
+    (run true ⟨some o, ixfrType, some v0.soa.rdata.serial, true⟩ z0 [m]).err = none ∧
+      (run true ⟨some o, ixfrType, some v0.soa.rdata.serial, true⟩ z0 [m]).zone ≃z zoneOf o (lastVersion v0 vs) := by
+  obtain ⟨s', hf, hd, hz⟩ := ixfr_versions_flat o v0 vs z0 true hne hz0 hv0 hvs hdist hs1 hs2
   have hsteps : diffSteps v0 vs ≠ [] := by cases vs <;> simp_all [diffSteps]
-  have hok := stepsOk_diff (dn := (lastVersion v0 vs).soa) vs v0 z0 hz0 hv0 hvs hdist
-  have hlast : WfVersion o (lastVersion v0 vs) := by
-    clear hok hsteps hl hc hs1 hs2 hdist hz0 hne
-    induction vs generalizing v0 with
-    | nil => exact hv0
-    | cons b rest ih => exact ih b (hvs b (by simp)) (fun v hv => hvs v (by simp [hv]))
-  have hf := ixfr_flat o v0.soa (diffSteps v0 vs) z0 true hsteps (by rw [hl]; exact hs1) (by rw [hl]; exact hs2)
-    (by rw [hl]; exact hok.1)
   have hshape : ∃ r1 rest, ixfrStream o v0.soa (diffSteps v0 vs) = soaRR o (lastSoa v0.soa (diffSteps v0 vs)) :: r1 :: rest := by
     cases hds : diffSteps v0 vs with
     | nil => exact absurd hds hsteps
     | cons st rest => exact ⟨_, _, rfl⟩
   obtain ⟨r1, rest, hsh⟩ := hshape
   rw [hsh] at hc hf
-  rw [both_variants (run_udp_single hc hf rfl) fix]
-  exact ⟨rfl, by rw [fin_zone, hl]; exact putSoa_same hok.2 hlast.body⟩
+  rw [both_variants (run_udp_single hc hf hd) true]
+  exact ⟨rfl, hz⟩
 
 /-- **UseTCP**: the truncated UDP answer (a lone, newer SOA) raises `UseTCP`; the zone is as it was. -/
-theorem fault_use_tcp (fix : Bool) (o : Name) (z0 : Zone) (d : Rdata) (b : Nat) (m : Msg) (more : List Msg)
+theorem fault_use_tcp (o : Name) (z0 : Zone) (d : Soa) (b : Nat) (m : Msg) (more : List Msg)
     (hh : headerErrOf o ixfrType m = none) (ha : m.answer = [soaRR o d])
-    (hs1 : d.serial ≠ b) (hs2 : serialLt d.serial b = false) :
-    run fix ⟨some o, ixfrType, some b, true⟩ z0 (m :: more) = ⟨some .UseTCP, z0⟩ :=
-  udp_truncated_run fix o z0 d b m more hh ha hs1 hs2
+    (hs1 : d.rdata.serial ≠ b) (hs2 : serialLt d.rdata.serial b = false) :
+    run true ⟨some o, ixfrType, some b, true⟩ z0 (m :: more) = ⟨some .UseTCP, z0⟩ :=
+  udp_truncated_run true o z0 d b m more hh ha hs1 hs2
 
 /-- **Serial going backwards** (RFC 1982): raises `SerialWentBackwards`, whatever follows; zone as it was. -/
-theorem fault_backwards_serial (fix : Bool) (o : Name) (z0 : Zone) (d : Rdata) (b : Nat) (udp : Bool) (m : Msg)
+theorem fault_backwards_serial (o : Name) (z0 : Zone) (d : Soa) (b : Nat) (udp : Bool) (m : Msg)
     (rest : List RRset) (more : List Msg) (hh : headerErrOf o ixfrType m = none)
-    (ha : m.answer = soaRR o d :: rest) (hs1 : d.serial ≠ b) (hs2 : serialLt d.serial b = true) :
-    run fix ⟨some o, ixfrType, some b, udp⟩ z0 (m :: more) = ⟨some .SerialWentBackwards, z0⟩ :=
-  backwards_run fix o z0 d b udp m rest more hh ha hs1 hs2
+    (ha : m.answer = soaRR o d :: rest) (hs1 : d.rdata.serial ≠ b) (hs2 : serialLt d.rdata.serial b = true) :
+    run true ⟨some o, ixfrType, some b, udp⟩ z0 (m :: more) = ⟨some .SerialWentBackwards, z0⟩ :=
+  backwards_run true o z0 d b udp m rest more hh ha hs1 hs2
 
-/-- **An error is never reported for a transfer that was applied** — repaired variant, every configuration,
-every sequence of messages whatsoever (valid, faulty, adversarial): if anything is raised, the zone is
-exactly the zone before. -/
+/-- **An error is never reported for a transfer that was applied.**  The code as it is, every
+configuration, every sequence of messages whatsoever (valid, faulty, adversarial): if anything is raised,
+the zone is exactly the zone before. -/
 theorem error_implies_unapplied (c : Config) (z0 : Zone) (msgs : List Msg) (e : XErr)
     (h : (run true c z0 msgs).err = some e) : (run true c z0 msgs).zone = z0 :=
   run_fix_atomic c z0 msgs e h
 
-/-- The same for the code as shipped, outside the trigger class of D11: every exception other than
-`FormError` leaves the zone exactly as it was.  (Full statement — without `hne` — fails: see
-`surplus_after_final_soa_as_shipped`.) -/
-theorem error_implies_unapplied_partial (c : Config) (z0 : Zone) (msgs : List Msg) (e : XErr)
-    (h : (run false c z0 msgs).err = some e) (hne : e ≠ .FormError) : (run false c z0 msgs).zone = z0 := by
-  rcases run_variants c z0 msgs with eq | ⟨hf, _⟩
-  · rw [eq] at h ⊢; exact run_fix_atomic c z0 msgs e h
-  · rw [h] at hf; cases hf; exact absurd rfl hne
-
-/-- … and a `FormError` of the shipped code that left the zone changed is one where the repaired code
-raises `FormError` with the zone untouched: the two differ in nothing else. -/
-theorem as_shipped_differs_only_by_commit (c : Config) (z0 : Zone) (msgs : List Msg) :
+/-- What commit 3feda1c changed, and nothing else: the loop without the look-ahead behaves identically,
+except that where the code now raises `FormError` with the zone untouched it may have raised that
+`FormError` after committing. -/
+theorem repair_changed_only_d11 (c : Config) (z0 : Zone) (msgs : List Msg) :
     run false c z0 msgs = run true c z0 msgs ∨
       ((run false c z0 msgs).err = some .FormError ∧ run true c z0 msgs = ⟨some .FormError, z0⟩) := by
   rcases run_variants c z0 msgs with eq | ⟨hf, ht⟩
@@ -158,77 +146,40 @@ theorem as_shipped_differs_only_by_commit (c : Config) (z0 : Zone) (msgs : List 
     cases hr : run true c z0 msgs with
     | mk err zone => rw [hr] at ht hz; simp at ht hz; rw [ht, hz]
 
-/-- **D11, the defect of the shipped code**: an AXFR whose final SOA is followed by one more rrset in the
-same message is committed *and then* reported as `FormError` — for every version, every zone before. -/
-theorem surplus_after_final_soa_as_shipped (o : Name) (v : Version) (z0 : Zone) (ser : Option Nat) (x : RRset)
-    (m : Msg) (hb : BodyOk o v.body) (hr : m.rcode = 0) (hq : m.question = [])
-    (ha : m.answer = axfrStream o v ++ [x]) :
-    (run false ⟨some o, axfrType, ser, false⟩ z0 [m]).err = some .FormError ∧
-      (run false ⟨some o, axfrType, ser, false⟩ z0 [m]).zone ≃z zoneOf o v ∧
-      run true ⟨some o, axfrType, ser, false⟩ z0 [m] = ⟨some .FormError, z0⟩ := by
-  obtain ⟨s', hf, hd, hz, _⟩ := axfr_flat o v z0 ser hb
-  have hc : Chunks ⟨some o, axfrType, ser, false⟩ (soaRR o v.soa :: ((v.body ++ [soaRR o v.soa]) ++ [x])) [m] :=
-    ⟨by simp [ha, axfrStream], by simp [hr, hq], by simp [ha, axfrStream]⟩
-  have hrun : run false ⟨some o, axfrType, ser, false⟩ z0 [m] = ⟨some .FormError, s'.zone⟩ := by
-    rw [run_single_tcp rfl hc]
-    unfold flatRun axfrStream at hf
-    unfold flatRun
-    cases hi : Inbound.init (some o) z0 axfrType ser false with
-    | error e => rw [hi] at hf; cases hf
-    | ok s0 =>
-      rw [hi] at hf
-      simp only [] at hf ⊢
-      cases h1 : firstSoa (openTxn s0) (soaRR o v.soa) false with
-      | error e => rw [h1] at hf; cases hf
-      | ok s1 =>
-        rw [h1] at hf
-        simp only [] at hf ⊢
-        rw [procAnswers_append, hf]
-        simp [procAnswers, procRRset, hd]
-  refine ⟨by rw [hrun], by rw [hrun]; exact hz, ?_⟩
-  rcases as_shipped_differs_only_by_commit ⟨some o, axfrType, ser, false⟩ z0 [m] with eq | ⟨_, ht⟩
-  · have he : (run true ⟨some o, axfrType, ser, false⟩ z0 [m]).err = some .FormError := by rw [← eq, hrun]
-    have hz0 := run_fix_atomic _ z0 [m] _ he
-    cases hr' : run true ⟨some o, axfrType, ser, false⟩ z0 [m] with
-    | mk err zone => rw [hr'] at he hz0; simp at he hz0; rw [he, hz0]
-  · exact ht
-
 /-! ## explicit fault transformers on accepted streams
 
 `Accepted c z0 recs`: the machine, fed `recs` flat over TCP, completes.  Every valid stream is accepted
 (`axfr_accepted`, `ixfr_accepted`, `axfr_style_accepted`), so the theorems below speak about every valid
 AXFR, IXFR and AXFR-style stream, every division into messages, and the fault at every position. -/
 
-theorem axfr_accepted (o : Name) (v : Version) (z0 : Zone) (ser : Option Nat) (hb : BodyOk o v.body) :
-    Accepted ⟨some o, axfrType, ser, false⟩ z0 (axfrStream o v) := by
-  obtain ⟨s', hf, hd, _⟩ := axfr_flat o v z0 ser hb
+theorem axfr_accepted (o : Name) (v : Version) (z0 : Zone) (ser : Option Nat) (hb : BodyOk o v.body)
+    (hco : Coherent (zoneOf o v)) : Accepted ⟨some o, axfrType, ser, false⟩ z0 (axfrStream o v) := by
+  obtain ⟨s', hf, hd, _⟩ := axfr_flat o v z0 ser hb hco
   exact ⟨s', hf, hd⟩
 
 theorem axfr_style_accepted (o : Name) (v : Version) (z0 : Zone) (b : Nat) (hb : BodyOk o v.body)
-    (hne : v.body ≠ []) (hs1 : v.soa.serial ≠ b) (hs2 : serialLt v.soa.serial b = false) :
+    (hco : Coherent (zoneOf o v)) (hne : v.body ≠ []) (hs1 : v.soa.rdata.serial ≠ b)
+    (hs2 : serialLt v.soa.rdata.serial b = false) :
     Accepted ⟨some o, ixfrType, some b, false⟩ z0 (axfrStream o v) := by
-  obtain ⟨s', hf, hd, _⟩ := axfr_style_flat o v z0 b hb hne hs1 hs2
+  obtain ⟨s', hf, hd, _⟩ := axfr_style_flat o v z0 b hb hco hne hs1 hs2
   exact ⟨s', hf, hd⟩
 
 theorem ixfr_accepted (o : Name) (v0 : Version) (vs : List Version) (z0 : Zone)
     (hne : vs ≠ []) (hz0 : z0 ≃z zoneOf o v0) (hv0 : WfVersion o v0) (hvs : ∀ v ∈ vs, WfVersion o v)
-    (hdist : ∀ v ∈ (v0 :: vs).dropLast, v.soa ≠ (lastVersion v0 vs).soa)
-    (hs1 : (lastVersion v0 vs).soa.serial ≠ v0.soa.serial)
-    (hs2 : serialLt (lastVersion v0 vs).soa.serial v0.soa.serial = false) :
-    Accepted ⟨some o, ixfrType, some v0.soa.serial, false⟩ z0 (ixfrStream o v0.soa (diffSteps v0 vs)) := by
-  have hl := lastSoa_diffSteps vs v0
-  have hsteps : diffSteps v0 vs ≠ [] := by cases vs <;> simp_all [diffSteps]
-  have hok := stepsOk_diff (dn := (lastVersion v0 vs).soa) vs v0 z0 hz0 hv0 hvs hdist
-  exact ⟨_, ixfr_flat o v0.soa (diffSteps v0 vs) z0 false hsteps (by rw [hl]; exact hs1) (by rw [hl]; exact hs2)
-    (by rw [hl]; exact hok.1), rfl⟩
+    (hdist : ∀ v ∈ (v0 :: vs).dropLast, v.soa.rdata ≠ (lastVersion v0 vs).soa.rdata)
+    (hs1 : (lastVersion v0 vs).soa.rdata.serial ≠ v0.soa.rdata.serial)
+    (hs2 : serialLt (lastVersion v0 vs).soa.rdata.serial v0.soa.rdata.serial = false) :
+    Accepted ⟨some o, ixfrType, some v0.soa.rdata.serial, false⟩ z0 (ixfrStream o v0.soa (diffSteps v0 vs)) := by
+  obtain ⟨s', hf, hd, _⟩ := ixfr_versions_flat o v0 vs z0 false hne hz0 hv0 hvs hdist hs1 hs2
+  exact ⟨s', hf, hd⟩
 
 /-- **Ends early / truncated / final SOA dropped**: only the first `k` records of an accepted stream
 arrive (any `k` short of the whole, any division into messages): the run raises (end of stream) and the
 zone is exactly the zone before. -/
-theorem fault_truncate (fix : Bool) (c : Config) (z0 : Zone) (recs : List RRset) (k : Nat) (msgs : List Msg)
+theorem fault_truncate (c : Config) (z0 : Zone) (recs : List RRset) (k : Nat) (msgs : List Msg)
     (hu : c.isUdp = false) (hacc : Accepted c z0 recs) (hk : k < recs.length)
     (hc : Chunks c (recs.take k) msgs) :
-    run fix c z0 msgs = ⟨some .EOF, z0⟩ := by
+    run true c z0 msgs = ⟨some .EOF, z0⟩ := by
   obtain ⟨s', hf, _⟩ := hacc
   apply both_variants_err
   cases k with
@@ -254,14 +205,14 @@ theorem fault_truncate (fix : Bool) (c : Config) (z0 : Zone) (recs : List RRset)
 /-- **Non-zero rcode / wrong question** on any message of any division of an accepted stream (a message
 that is read: records are still due when it arrives): the run raises `TransferError` resp. `FormError`
 and the zone is exactly the zone before. -/
-theorem fault_header (fix : Bool) (c : Config) (o : Name) (z0 : Zone) (recs : List RRset)
+theorem fault_header (c : Config) (o : Name) (z0 : Zone) (recs : List RRset)
     (pre post : List Msg) (m m' : Msg) (e : XErr)
     (hu : c.isUdp = false) (ho : c.origin = some o) (hacc : Accepted c z0 recs)
     (hc : Chunks c recs (pre ++ m :: post)) (htail : (m :: post).flatMap (·.answer) ≠ [])
     (he : headerErrOf o c.rdtype m' = some e) :
-    run fix c z0 (pre ++ m' :: post) = ⟨some e, z0⟩ := by
+    run true c z0 (pre ++ m' :: post) = ⟨some e, z0⟩ := by
   obtain ⟨s', hf, _⟩ := hacc
-  exact both_variants_err (run_header_fault hu ho hc hf htail he) fix
+  exact both_variants_err (run_header_fault hu ho hc hf htail he) true
 
 /-- the two header faults are instances: -/
 theorem fault_header_rcode (o : Name) (t : Nat) (m : Msg) (h : m.rcode ≠ 0) :
@@ -278,118 +229,360 @@ theorem fault_header_question (o : Name) (t : Nat) (m : Msg) (q : Name × Nat) (
   · by_cases h1 : q.1 = o <;> simp [hr, h, h1]
 
 /-- **Surplus after the final SOA in the same message** (any division of an accepted stream, any rrsets
-appended to the message that holds the final SOA).  Repaired code: `FormError`, zone exactly as before.
-Shipped code: the same `FormError`, *after* the transfer was committed (D11). -/
+appended to the message that holds the final SOA): `FormError`, zone exactly as before. -/
 theorem fault_surplus_after_final_soa (c : Config) (z0 : Zone) (recs : List RRset) (pre : List Msg) (m : Msg)
-    (extra : List RRset) (s' : Inbound)
-    (hu : c.isUdp = false) (hf : flatRun c z0 recs = .ok s') (hd : s'.done = true)
+    (extra : List RRset) (hu : c.isUdp = false) (hacc : Accepted c z0 recs)
     (hc : Chunks c recs (pre ++ [m])) (hm : m.answer ≠ []) (hx : extra ≠ []) :
-    run true c z0 (pre ++ [{ m with answer := m.answer ++ extra }]) = ⟨some .FormError, z0⟩ ∧
-      run false c z0 (pre ++ [{ m with answer := m.answer ++ extra }]) = ⟨some .FormError, s'.zone⟩ := by
-  have h := run_surplus_shipped hu hc hf hd hm hx
-  exact ⟨repaired_of_shipped_formError h, h⟩
+    run true c z0 (pre ++ [{ m with answer := m.answer ++ extra }]) = ⟨some .FormError, z0⟩ := by
+  obtain ⟨s', hf, hd⟩ := hacc
+  exact repaired_of_shipped_formError (run_surplus_shipped hu hc hf hd hm hx)
 
-/-- **Wrong base serial**: a valid IXFR response for a chain that starts at `cur`, received by a client
-that asked for a different serial `b` (and is neither up to date nor ahead): the run raises
-(`FormError`, base serial mismatch) at the first difference sequence, whatever the division into
-messages; the zone is exactly the zone before. -/
-theorem fault_wrong_base_serial (fix : Bool) (o : Name) (cur : Rdata) (steps : List Step) (z0 : Zone) (b : Nat)
-    (msgs : List Msg) (hne : steps ≠ []) (hcur : cur ≠ lastSoa cur steps)
-    (hb1 : b ≠ cur.serial) (hb2 : (lastSoa cur steps).serial ≠ b) (hb3 : serialLt (lastSoa cur steps).serial b = false)
-    (hc : Chunks ⟨some o, ixfrType, some b, false⟩ (ixfrStream o cur steps) msgs) :
-    run fix ⟨some o, ixfrType, some b, false⟩ z0 msgs = ⟨some .FormError, z0⟩ := by
-  apply both_variants_err
-  cases steps with
-  | nil => exact absurd rfl hne
-  | cons st rest =>
-    have hshape : ixfrStream o cur (st :: rest) =
-        soaRR o (lastSoa cur (st :: rest)) :: ([] ++ soaRR o cur ::
-          (st.dels.map single ++ (soaRR o st.soa :: (st.adds.map single ++ ixfrSteps o st.soa rest)) ++
-            [soaRR o (lastSoa cur (st :: rest))])) := by
-      simp [ixfrStream, ixfrSteps]
-    rw [hshape] at hc
-    have h0 : Inbound.init (some o) z0 ixfrType (some b) false =
-        .ok ⟨o, ixfrType, true, some b, false, none, false, false, false, none, z0⟩ := by
-      simp [Inbound.init]
-    have hf : flatRun ⟨some o, ixfrType, some b, false⟩ z0 (soaRR o (lastSoa cur (st :: rest)) :: []) =
-        .ok (mid o ixfrType true (some b) false (soaRR o (lastSoa cur (st :: rest))) true false ⟨z0, false⟩ z0) := by
-      unfold flatRun
-      simp only [h0]
-      simp [firstSoa, openTxn, writer, mid, hb2, hb3, procAnswers]
-    refine run_of_flat_raises rfl hc hf rfl ?_
-    have hfin : isFinalSoa (mid o ixfrType true (some b) false (soaRR o (lastSoa cur (st :: rest))) true false ⟨z0, false⟩ z0)
-        (soaRR o cur) = false := by
-      simp [isFinalSoa, eqFirst, mid, rrsetEq_soaRR, hcur]
-    unfold procRRset
-    simp only [hfin]
-    have : cur.serial ≠ b := fun h => hb1 h.symm
-    simp [mid, procOtherSoa, nextDm, this]
+/-- … which is the defect D11 the repair removed: before it, the same `FormError` was raised *after* the
+transfer had been committed (the zone was the target). -/
+theorem before_repair_surplus_was_committed (c : Config) (z0 : Zone) (recs : List RRset) (pre : List Msg) (m : Msg)
+    (extra : List RRset) (s' : Inbound) (hu : c.isUdp = false) (hf : flatRun c z0 recs = .ok s') (hd : s'.done = true)
+    (hc : Chunks c recs (pre ++ [m])) (hm : m.answer ≠ []) (hx : extra ≠ []) :
+    run false c z0 (pre ++ [{ m with answer := m.answer ++ extra }]) = ⟨some .FormError, s'.zone⟩ :=
+  run_surplus_shipped hu hc hf hd hm hx
 
-/-- **AXFR that does not start with the SOA** (first SOA dropped, or swapped with the record after it):
-`FormError`, zone exactly as before. -/
-theorem fault_axfr_first_not_soa (fix : Bool) (o : Name) (z0 : Zone) (ser : Option Nat) (m0 : Msg) (ms : List Msg)
-    (rr0 : RRset) (rest0 : List RRset) (hr : m0.rcode = 0) (hq : m0.question = [])
-    (ha : m0.answer = rr0 :: rest0) (hns : rr0.rdtype ≠ soaType ∨ rr0.owner ≠ o) :
-    run fix ⟨some o, axfrType, ser, false⟩ z0 (m0 :: ms) = ⟨some .FormError, z0⟩ := by
-  have h0 : Inbound.init (some o) z0 axfrType ser false =
-      .ok ⟨o, axfrType, false, ser, false, none, false, false, false, none, z0⟩ := by
-    simp [Inbound.init, axfrType, ixfrType]
-  refine run_first_err (z := z0) h0 (by simp [headerErr, headerErrOf, hr, hq]) ha ?_
+/-- **The first rrset is not the apex SOA** (first SOA dropped from an AXFR, swapped with the record after
+it, its owner or type corrupted — AXFR or IXFR): `FormError`, zone exactly as before. -/
+theorem fault_first_not_apex_soa (c : Config) (o : Name) (z0 : Zone) (s0 : Inbound) (m0 : Msg) (ms : List Msg)
+    (rr0 : RRset) (rest0 : List RRset) (ho : c.origin = some o)
+    (hi : Inbound.init c.origin z0 c.rdtype c.serial c.isUdp = .ok s0)
+    (hh : headerErrOf o c.rdtype m0 = none) (ha : m0.answer = rr0 :: rest0)
+    (hns : rr0.rdtype ≠ soaType ∨ rr0.owner ≠ o) :
+    run true c z0 (m0 :: ms) = ⟨some .FormError, z0⟩ := by
+  have ip := init_props hi
+  have hoo : s0.origin = o := by have := ip.1; rw [ho] at this; cases this; rfl
+  have op := openTxn_props s0
+  refine run_first_err (z := z0) hi (by unfold headerErr; rw [hoo, ip.2.1]; exact hh) ha ?_
   unfold firstSoa
+  rw [op.1.1, hoo, op.2.1, ip.2.2.2.1]
   by_cases h1 : rr0.owner = o
   · have h2 : rr0.rdtype ≠ soaType := hns.elim id (fun h => absurd h1 h)
-    simp [openTxn, h1, h2]
-  · simp [openTxn, h1]
+    simp [h1, h2]
+  · simp [h1]
 
-/-- **A deletion sent twice** (IXFR, first difference sequence, any position `j`): the second copy cannot
-be exact — `DeleteNotExact`, zone exactly as before — whatever the division into messages. -/
-theorem fault_duplicate_deletion (fix : Bool) (o : Name) (cur : Rdata) (st : Step) (rest : List Step) (z0 : Zone)
+/-! ## faults at an arbitrary position of an IXFR response
+
+`IxfrAt o cur pre st post z0`: a well-formed response (difference sequences `pre ++ st :: post`) for the
+zone `z0` with SOA `cur`, looked at its sequence `st`.  `dn` below is the server's final SOA.  Every
+theorem holds for every division of the faulty stream into messages (`Chunks`). -/
+
+/-- **A deletion sent twice**, in any difference sequence, at any position `j`: the second copy cannot be
+exact — `DeleteNotExact`, zone exactly as before. -/
+theorem fault_duplicate_deletion (o : Name) (cur : Soa) (pre : List Step) (st : Step) (post : List Step) (z0 : Zone)
     (j : Nat) (d : RR) (tail : List RRset) (msgs : List Msg)
-    (hok : StepsOk o (lastSoa cur (st :: rest)) cur z0 (st :: rest)) (hj : st.dels[j]? = some d)
-    (hs1 : (lastSoa cur (st :: rest)).serial ≠ cur.serial)
-    (hs2 : serialLt (lastSoa cur (st :: rest)).serial cur.serial = false)
-    (hc : Chunks ⟨some o, ixfrType, some cur.serial, false⟩
-      (soaRR o (lastSoa cur (st :: rest)) ::
-        ((soaRR o cur :: (st.dels.take (j + 1)).map single) ++ single d :: tail)) msgs) :
-    run fix ⟨some o, ixfrType, some cur.serial, false⟩ z0 msgs = ⟨some .DeleteNotExact, z0⟩ := by
-  apply both_variants_err
-  obtain ⟨hne, hdel, hnd, _, _⟩ := hok
+    (h : IxfrAt o cur pre st post z0) (hj : st.dels[j]? = some d)
+    (hc : Chunks ⟨some o, ixfrType, some cur.rdata.serial, false⟩
+      (soaRR o (lastSoa cur (pre ++ st :: post)) ::
+        ((ixfrSteps o cur pre ++ (soaRR o (lastSoa cur pre) :: (st.dels.take (j + 1)).map single)) ++ single d :: tail))
+      msgs) :
+    run true ⟨some o, ixfrType, some cur.rdata.serial, false⟩ z0 msgs = ⟨some .DeleteNotExact, z0⟩ := by
+  obtain ⟨x', hf, _, hcx, hne, hdel, hnd, _, _, _⟩ := h.before false
   have hsub : ∀ r ∈ st.dels.take (j + 1), r ∈ st.dels := fun r hr => List.mem_of_mem_take hr
-  obtain ⟨c1, h1⟩ := mid_dels (fix := false) (o := o) (t := ixfrType) (ser := some cur.serial) (udp := false)
-    (f := soaRR o (lastSoa cur (st :: rest))) (z := z0) (st.dels.take (j + 1)) ⟨z0, false⟩
+  obtain ⟨x1, e1, q1⟩ := mid_dels (fix := false) (o := o) (t := ixfrType) (ser := some (lastSoa cur pre).rdata.serial)
+    (udp := false) (f := soaRR o (lastSoa cur (pre ++ st :: post))) (z := z0) (st.dels.take (j + 1)) x' hcx
     (fun r hr => hdel r (hsub r hr)) (hnd.sublist (List.take_sublist _ _))
-  have h0 : Inbound.init (some o) z0 ixfrType (some cur.serial) false =
-      .ok ⟨o, ixfrType, true, some cur.serial, false, none, false, false, false, none, z0⟩ := by
-    simp [Inbound.init]
-  have hfs : firstSoa (openTxn ⟨o, ixfrType, true, some cur.serial, false, none, false, false, false, none, z0⟩)
-      (soaRR o (lastSoa cur (st :: rest))) false =
-      .ok (mid o ixfrType true (some cur.serial) false (soaRR o (lastSoa cur (st :: rest))) true false ⟨z0, false⟩ z0) := by
-    simp [firstSoa, openTxn, writer, mid, hs1, hs2]
-  have hf : flatRun ⟨some o, ixfrType, some cur.serial, false⟩ z0
-      (soaRR o (lastSoa cur (st :: rest)) :: (soaRR o cur :: (st.dels.take (j + 1)).map single)) =
-      .ok (mid o ixfrType true (some cur.serial) false (soaRR o (lastSoa cur (st :: rest))) false true
-        ⟨delAll z0 (st.dels.take (j + 1)), c1⟩ z0) := by
-    unfold flatRun
-    simp only [h0, hfs]
-    rw [procAnswers, mid_delstart hne rfl]
-    simp only []
-    exact h1
-  refine run_of_flat_raises rfl hc hf rfl ?_
   have hdm : d ∈ st.dels.take (j + 1) := by
     rw [List.mem_take_iff_getElem]
     have hjl : j < st.dels.length := by
-      rcases Nat.lt_or_ge j st.dels.length with h | h
-      · exact h
-      · rw [List.getElem?_eq_none h] at hj; cases hj
+      rcases Nat.lt_or_ge j st.dels.length with h' | h'
+      · exact h'
+      · rw [List.getElem?_eq_none h'] at hj; cases hj
     refine ⟨j, by omega, ?_⟩
     rw [List.getElem?_eq_getElem hjl] at hj
     exact Option.some.inj hj
   have hdd := hdel d (hsub d hdm)
-  have hnot : d ∉ delAll z0 (st.dels.take (j + 1)) := fun h => ((mem_delAll _ _ _).1 h).2 hdm
-  have h1' : (single d).rdtype ≠ soaType := hdd.1
-  have h2' : isSubdomain (single d).owner o = true := hdd.2.1
-  simp [mid, procRRset, h1', fallbackState, fallbackTxn, procData, h2', txnDeleteExact, recsOf_single, hnot]
-  simp [single]
+  have hB : procAnswers false (mid o ixfrType true (some (lastSoa cur pre).rdata.serial) false (soaRR o (lastSoa cur (pre ++ st :: post))) pre.isEmpty false x' z0)
+      (soaRR o (lastSoa cur pre) :: (st.dels.take (j + 1)).map single) =
+      .ok (mid o ixfrType true (some (lastSoa cur pre).rdata.serial) false (soaRR o (lastSoa cur (pre ++ st :: post))) false true x1 z0) := by
+    rw [procAnswers, mid_delstart hne rfl]; exact e1
+  exact raise_at rfl hf hB rfl
+    (mid_del_absent (W := x'.work) hdd.1 hdd.2.1 hcx
+      (fun q hq => ((mem_delAll _ _ _).1 ((q1 q).1 hq)).1) hdd.2.2
+      (fun hq => ((mem_delAll _ _ _).1 ((q1 d).1 hq)).2 hdm)) hc
+
+/-- **An addition arriving while the deletions are still being read** — the SOA that separates the two
+halves of a difference sequence was dropped, or swapped with the first addition: a record that is not in
+the zone cannot be deleted, `DeleteNotExact`, zone exactly as before.  (`hfresh`: the record is new with
+respect to a coherent zone `W` that holds the version being edited; for a server's own differences,
+`W` is the next version.) -/
+theorem fault_addition_in_delete_mode (o : Name) (cur : Soa) (pre : List Step) (st : Step) (post : List Step)
+    (z0 : Zone) (a : RR) (W : Zone) (tail : List RRset) (msgs : List Msg)
+    (h : IxfrAt o cur pre st post z0) (ha : a ∈ st.adds)
+    (hW : Coherent W) (haW : a ∈ W) (hsubW : ∀ q ∈ delAll (applyAll o z0 pre) st.dels, q ∈ W)
+    (hfresh : a ∉ delAll (applyAll o z0 pre) st.dels)
+    (hc : Chunks ⟨some o, ixfrType, some cur.rdata.serial, false⟩
+      (soaRR o (lastSoa cur (pre ++ st :: post)) ::
+        ((ixfrSteps o cur pre ++ (soaRR o (lastSoa cur pre) :: st.dels.map single)) ++ single a :: tail)) msgs) :
+    run true ⟨some o, ixfrType, some cur.rdata.serial, false⟩ z0 msgs = ⟨some .DeleteNotExact, z0⟩ := by
+  obtain ⟨x', hf, q, hcx, hne, hdel, hnd, hadd, _, _⟩ := h.before false
+  obtain ⟨x1, e1, q1⟩ := mid_dels (fix := false) (o := o) (t := ixfrType) (ser := some (lastSoa cur pre).rdata.serial)
+    (udp := false) (f := soaRR o (lastSoa cur (pre ++ st :: post))) (z := z0) st.dels x' hcx hdel hnd
+  have hmem : ∀ r, r ∈ x1.work ↔ r ∈ delAll (applyAll o z0 pre) st.dels := by
+    intro r; rw [q1 r, mem_delAll, mem_delAll, q r]
+  have hB : procAnswers false (mid o ixfrType true (some (lastSoa cur pre).rdata.serial) false (soaRR o (lastSoa cur (pre ++ st :: post))) pre.isEmpty false x' z0)
+      (soaRR o (lastSoa cur pre) :: st.dels.map single) =
+      .ok (mid o ixfrType true (some (lastSoa cur pre).rdata.serial) false (soaRR o (lastSoa cur (pre ++ st :: post))) false true x1 z0) := by
+    rw [procAnswers, mid_delstart hne rfl]; exact e1
+  exact raise_at rfl hf hB rfl
+    (mid_del_absent (W := W) (hadd a ha).1 (hadd a ha).2 hW (fun r hr => hsubW r ((hmem r).1 hr)) haW
+      (fun hr => hfresh ((hmem a).1 hr))) hc
+
+/-- **The SOA that opens a difference sequence is dropped** (any sequence but the first), or its type is
+corrupted so that it and possibly other junk `junk` is read as data: the deletions are taken for additions
+and the next SOA does not continue from our serial — `FormError`, zone exactly as before. -/
+theorem fault_drop_delstart_soa (o : Name) (cur : Soa) (pre : List Step) (st : Step) (post : List Step) (z0 : Zone)
+    (junk : List RRset) (tail : List RRset) (msgs : List Msg)
+    (h : IxfrAt o cur pre st post z0) (hpre : pre ≠ [])
+    (hser : st.soa.rdata.serial ≠ (lastSoa cur pre).rdata.serial)
+    (hjb : BodyOk o junk) (hjc : Coherent (applyAll o z0 pre ++ recsOfAll junk))
+    (hc : Chunks ⟨some o, ixfrType, some cur.rdata.serial, false⟩
+      (soaRR o (lastSoa cur (pre ++ st :: post)) ::
+        ((ixfrSteps o cur pre ++ (junk ++ st.dels.map single)) ++ soaRR o st.soa :: tail)) msgs) :
+    run true ⟨some o, ixfrType, some cur.rdata.serial, false⟩ z0 msgs = ⟨some .FormError, z0⟩ := by
+  obtain ⟨x', hf, q, hcx, _, hdel, _, _, _, _⟩ := h.before false
+  have hemp : pre.isEmpty = false := by cases pre <;> simp_all
+  rw [hemp] at hf
+  obtain ⟨x1, e1, q1⟩ := mid_adds (fix := false) (o := o) (t := ixfrType) (inc := true)
+    (ser := some (lastSoa cur pre).rdata.serial) (udp := false) (f := soaRR o (lastSoa cur (pre ++ st :: post)))
+    (z := z0) junk x' hjb (Coherent.congr (Zone.equiv_append q _) hjc)
+  obtain ⟨x2, e2, _⟩ := mid_adds_present (fix := false) (o := o) (t := ixfrType) (inc := true)
+    (ser := some (lastSoa cur pre).rdata.serial) (udp := false) (f := soaRR o (lastSoa cur (pre ++ st :: post)))
+    (z := z0) st.dels x1 (Coherent.congr (Zone.equiv_trans q1 (Zone.equiv_append q _)) hjc)
+    (fun r hr => ⟨(hdel r hr).1, (hdel r hr).2.1, (q1 r).2 (List.mem_append.2 (Or.inl (hdel r hr).2.2))⟩)
+  have hB : procAnswers false (mid o ixfrType true (some (lastSoa cur pre).rdata.serial) false (soaRR o (lastSoa cur (pre ++ st :: post))) false false x' z0)
+      (junk ++ st.dels.map single) = .ok (mid o ixfrType true (some (lastSoa cur pre).rdata.serial) false (soaRR o (lastSoa cur (pre ++ st :: post))) false false x2 z0) := by
+    rw [procAnswers_append, e1]; exact e2
+  exact raise_at rfl hf hB rfl (mid_soa_mismatch hser) hc
+
+/-- **The SOA that opens the first difference sequence is dropped and that sequence deletes nothing**: the
+next SOA is read where the old one should be — `FormError` (empty IXFR sequence, or base serial mismatch). -/
+theorem fault_drop_first_delstart_soa_nodels (o : Name) (cur : Soa) (st : Step) (post : List Step) (z0 : Zone)
+    (tail : List RRset) (msgs : List Msg)
+    (h : IxfrAt o cur [] st post z0) (hser : st.soa.rdata.serial ≠ cur.rdata.serial)
+    (hc : Chunks ⟨some o, ixfrType, some cur.rdata.serial, false⟩
+      (soaRR o (lastSoa cur ([] ++ st :: post)) :: ((ixfrSteps o cur [] ++ []) ++ soaRR o st.soa :: tail)) msgs) :
+    run true ⟨some o, ixfrType, some cur.rdata.serial, false⟩ z0 msgs = ⟨some .FormError, z0⟩ := by
+  obtain ⟨x', hf, _⟩ := h.before false
+  have hB : procAnswers false (mid o ixfrType true (some (lastSoa cur []).rdata.serial) false (soaRR o (lastSoa cur ([] ++ st :: post)))
+      ([] : List Step).isEmpty false x' z0) [] = .ok _ := rfl
+  exact raise_at rfl hf hB rfl (mid_soa_mismatch (b := (lastSoa cur []).rdata.serial) hser) hc
+
+/-- **… and that sequence has deletions, more sequences follow**: the deletions are taken for the body of
+an AXFR-style answer, in which the next SOA (not the final one) has no place — `FormError`. -/
+theorem fault_drop_first_delstart_soa_dels (o : Name) (cur : Soa) (st : Step) (post : List Step) (z0 : Zone)
+    (d0 : RR) (ds : List RR) (tail : List RRset) (msgs : List Msg)
+    (h : IxfrAt o cur [] st post z0) (hd : st.dels = d0 :: ds)
+    (hnf : st.soa.rdata ≠ (lastSoa cur ([] ++ st :: post)).rdata)
+    (hc : Chunks ⟨some o, ixfrType, some cur.rdata.serial, false⟩
+      (soaRR o (lastSoa cur ([] ++ st :: post)) :: ((ixfrSteps o cur [] ++ st.dels.map single) ++ soaRR o st.soa :: tail))
+      msgs) :
+    run true ⟨some o, ixfrType, some cur.rdata.serial, false⟩ z0 msgs = ⟨some .FormError, z0⟩ := by
+  obtain ⟨x', hf, _, hcx, _, hdel, hnd, _, _, _⟩ := h.before false
+  have h0 := hdel d0 (by simp [hd])
+  have hsubx : ∀ r ∈ st.dels, r ∈ x'.work := fun r hr => (hdel r hr).2.2
+  have hcd : Coherent (recsOf (single d0) ++ recsOfAll (ds.map single)) := by
+    rw [recsOf_single, recsOfAll_singles]
+    exact hcx.subset fun r hr => hsubx r (by rw [hd]; simpa using hr)
+  obtain ⟨x0, e0, q0⟩ := mid_fallback_add (fix := false) (o := o) (t := ixfrType) (inc := true)
+    (ser := some (lastSoa cur []).rdata.serial) (udp := false) (f := soaRR o (lastSoa cur ([] ++ st :: post)))
+    (dm := false) (x := x') (z := z0) (rs := single d0) (more := !(ds.map single).isEmpty) h0.1 h0.2.1 (by simp [single])
+    (hcd.subset fun r hr => List.mem_append.2 (Or.inl hr))
+  obtain ⟨x1, e1, _⟩ := mid_adds (fix := false) (o := o) (t := ixfrType) (inc := false)
+    (ser := some (lastSoa cur []).rdata.serial) (udp := false) (f := soaRR o (lastSoa cur ([] ++ st :: post)))
+    (z := z0) (ds.map single) x0
+    (bodyOk_singles fun r hr => ⟨(hdel r (by simp [hd, hr])).1, (hdel r (by simp [hd, hr])).2.1⟩)
+    (Coherent.congr (Zone.equiv_append q0 _) hcd)
+  have hB : procAnswers false (mid o ixfrType true (some (lastSoa cur []).rdata.serial) false (soaRR o (lastSoa cur ([] ++ st :: post)))
+      ([] : List Step).isEmpty false x' z0) (st.dels.map single) =
+      .ok (mid o ixfrType false (some (lastSoa cur []).rdata.serial) false (soaRR o (lastSoa cur ([] ++ st :: post))) false false x1 z0) := by
+    rw [hd, List.map_cons, procAnswers]
+    simp only [List.isEmpty_nil]
+    rw [e0]; exact e1
+  exact raise_at rfl hf hB rfl (mid_axfr_other_soa hnf) hc
+
+/-- **The first SOA of an IXFR response is dropped**: the response then starts with the SOA of the version
+we hold, which reads as "already up to date".  Alone in its message the transfer ends there, otherwise
+the rest is refused (`FormError`); either way the zone is exactly the zone before. -/
+theorem fault_drop_first_soa_ixfr (o : Name) (z0 : Zone) (cur : Soa) (udp : Bool) (m0 : Msg) (ms : List Msg)
+    (rest0 : List RRset) (hh : headerErrOf o ixfrType m0 = none) (ha : m0.answer = soaRR o cur :: rest0) :
+    run true ⟨some o, ixfrType, some cur.rdata.serial, udp⟩ z0 (m0 :: ms) =
+      ⟨if rest0.isEmpty then none else some .FormError, z0⟩ := by
+  cases rest0 with
+  | nil => simpa using uptodate_run true o z0 cur udp m0 ms hh ha
+  | cons r rs =>
+    simp [run, Inbound.init, runLoop, procMessage, headerErr, hh, openTxn, procBody, ha, firstSoa, procAnswers,
+      procRRset]
+
+/-- Dropping the SOA that separates deletions from additions when there are no additions, and dropping the
+SOA that opens the next difference sequence, give the same stream (the two SOAs are the same rrset), and
+so do dropping that SOA in the last sequence and dropping the final SOA: these cases are
+`fault_drop_delstart_soa` and `fault_truncate`. -/
+theorem drop_addstart_soa_without_additions (o : Name) (cur : Soa) (dels : List RR) (soa : Soa) (rest : List Step) :
+    ixfrSteps o cur (⟨dels, soa, []⟩ :: rest) =
+      soaRR o cur :: (dels.map single ++ (soaRR o soa :: ixfrSteps o soa rest)) := by
+  simp [ixfrSteps]
+
+/-- **The first difference sequence loses its opening SOA, has deletions, and is the only one**: what
+arrives up to the next SOA *is* the AXFR-style response of the zone made of the deleted records — which
+the machine accepts (`axfr_style_ixfr`); what follows is surplus (`fault_surplus_after_final_soa`).  The
+stream denotes that zone, not the server's. -/
+theorem drop_first_delstart_soa_single_step (o : Name) (cur : Soa) (st : Step) :
+    soaRR o (lastSoa cur [st]) :: (st.dels.map single ++ (soaRR o st.soa :: (st.adds.map single ++ [soaRR o (lastSoa cur [st])]))) =
+      axfrStream o ⟨st.soa, st.dels.map single⟩ ++ (st.adds.map single ++ [soaRR o st.soa]) := by
+  simp [axfrStream, lastSoa]
+
+/-- **The owner of an SOA is corrupted** to another name of the zone, at a place where the machine is
+adding (the SOA that opens any difference sequence, the final SOA): `txn.add` refuses a non-apex SOA,
+`ValueError`, zone exactly as before. -/
+theorem fault_nonapex_soa_in_add_mode (o : Name) (cur dn : Soa) (pre : List Step) (z0 : Zone) (x : RRset)
+    (tail : List RRset) (msgs : List Msg)
+    (hs1 : dn.rdata.serial ≠ cur.rdata.serial) (hs2 : serialLt dn.rdata.serial cur.rdata.serial = false)
+    (hc0 : Coherent z0) (hok : StepsOk o dn cur z0 pre)
+    (hxt : x.rdtype = soaType) (hxo : x.owner ≠ o) (hxz : isSubdomain x.owner o = true)
+    (hc : Chunks ⟨some o, ixfrType, some cur.rdata.serial, false⟩
+      (soaRR o dn :: ((ixfrSteps o cur pre ++ []) ++ x :: tail)) msgs) :
+    run true ⟨some o, ixfrType, some cur.rdata.serial, false⟩ z0 msgs = ⟨some .ValueError, z0⟩ := by
+  obtain ⟨x', hf, _⟩ := ixfr_prefix_flat o cur dn pre z0 false hs1 hs2 hc0 hok
+  have hB : procAnswers false (mid o ixfrType true (some (lastSoa cur pre).rdata.serial) false (soaRR o dn)
+      pre.isEmpty false x' z0) [] = .ok _ := rfl
+  exact raise_at rfl hf hB rfl (mid_add_nonapex_soa hxt hxo hxz) hc
+
+/-- … and where the machine is deleting (the SOA between deletions and additions): no such record exists,
+`DeleteNotExact`, zone exactly as before. -/
+theorem fault_nonapex_soa_in_delete_mode (o : Name) (cur : Soa) (pre : List Step) (st : Step) (post : List Step)
+    (z0 : Zone) (x : RRset) (tail : List RRset) (msgs : List Msg)
+    (h : IxfrAt o cur pre st post z0)
+    (hxt : x.rdtype = soaType) (hxo : x.owner ≠ o) (hxz : isSubdomain x.owner o = true) (hxn : x.rdatas ≠ [])
+    (hapex : ∀ q ∈ applyAll o z0 pre, q.rdtype = soaType → q.owner = o)
+    (hc : Chunks ⟨some o, ixfrType, some cur.rdata.serial, false⟩
+      (soaRR o (lastSoa cur (pre ++ st :: post)) ::
+        ((ixfrSteps o cur pre ++ (soaRR o (lastSoa cur pre) :: st.dels.map single)) ++ x :: tail)) msgs) :
+    run true ⟨some o, ixfrType, some cur.rdata.serial, false⟩ z0 msgs = ⟨some .DeleteNotExact, z0⟩ := by
+  obtain ⟨x', hf, q, hcx, hne, hdel, hnd, _, _, _⟩ := h.before false
+  obtain ⟨x1, e1, q1⟩ := mid_dels (fix := false) (o := o) (t := ixfrType) (ser := some (lastSoa cur pre).rdata.serial)
+    (udp := false) (f := soaRR o (lastSoa cur (pre ++ st :: post))) (z := z0) st.dels x' hcx hdel hnd
+  have hB : procAnswers false (mid o ixfrType true (some (lastSoa cur pre).rdata.serial) false
+      (soaRR o (lastSoa cur (pre ++ st :: post))) pre.isEmpty false x' z0)
+      (soaRR o (lastSoa cur pre) :: st.dels.map single) =
+      .ok (mid o ixfrType true (some (lastSoa cur pre).rdata.serial) false
+        (soaRR o (lastSoa cur (pre ++ st :: post))) false true x1 z0) := by
+    rw [procAnswers, mid_delstart hne rfl]; exact e1
+  refine raise_at rfl hf hB rfl (mid_del_nonapex_soa hxt hxo hxz hxn ?_) hc
+  intro r hr ht
+  exact hapex r ((q r).1 ((mem_delAll _ _ _).1 ((q1 r).1 hr)).1) ht
+
+/-- **AXFR: the owner of the closing SOA (or an SOA anywhere in the body) is not the apex**: `ValueError`,
+zone exactly as before. -/
+theorem fault_axfr_nonapex_soa (o : Name) (soa : Soa) (pb : List RRset) (z0 : Zone) (ser : Option Nat) (x : RRset)
+    (tail : List RRset) (msgs : List Msg) (hb : BodyOk o pb) (hco : Coherent (recsOfAll pb))
+    (hxt : x.rdtype = soaType) (hxo : x.owner ≠ o) (hxz : isSubdomain x.owner o = true)
+    (hc : Chunks ⟨some o, axfrType, ser, false⟩ (soaRR o soa :: (([] ++ pb) ++ x :: tail)) msgs) :
+    run true ⟨some o, axfrType, ser, false⟩ z0 msgs = ⟨some .ValueError, z0⟩ := by
+  obtain ⟨x1, e1, _⟩ := mid_adds (fix := false) (o := o) (t := axfrType) (inc := false) (ser := ser) (udp := false)
+    (f := soaRR o soa) (z := z0) pb ⟨[], false⟩ hb (by simpa using hco)
+  have hf : flatRun ⟨some o, axfrType, ser, false⟩ z0 (soaRR o soa :: []) =
+      .ok (mid o axfrType false ser false (soaRR o soa) false false ⟨[], false⟩ z0) := by
+    simp [flatRun, Inbound.init, axfrType, ixfrType, firstSoa, openTxn, writer, mid, procAnswers]
+  exact raise_at rfl hf e1 rfl (mid_add_nonapex_soa hxt hxo hxz) hc
+
+/-! ## faults the protocol cannot detect: the result is the zone the stream denotes -/
+
+/-- **A record of an AXFR is dropped** (not an SOA): nothing can tell; the transfer completes and the zone
+is the version *without that rrset* — what the stream denotes, not what the server holds. -/
+theorem fault_drop_axfr_record_denotes (o : Name) (v : Version) (i : Nat) (z0 : Zone) (ser : Option Nat)
+    (msgs : List Msg) (hb : BodyOk o v.body) (hco : Coherent (zoneOf o v))
+    (hc : Chunks ⟨some o, axfrType, ser, false⟩ (axfrStream o ⟨v.soa, v.body.eraseIdx i⟩) msgs) :
+    (run true ⟨some o, axfrType, ser, false⟩ z0 msgs).err = none ∧
+      (run true ⟨some o, axfrType, ser, false⟩ z0 msgs).zone ≃z zoneOf o ⟨v.soa, v.body.eraseIdx i⟩ := by
+  have hsub : ∀ rs ∈ v.body.eraseIdx i, rs ∈ v.body := fun rs h => List.mem_of_mem_eraseIdx h
+  have hb' : BodyOk o (v.body.eraseIdx i) := fun rs h => hb rs (hsub rs h)
+  have hco' : Coherent (zoneOf o ⟨v.soa, v.body.eraseIdx i⟩) := by
+    refine hco.subset fun r hr => ?_
+    rcases mem_zoneOf.1 hr with h | h
+    · simp only [recsOfAll, List.mem_flatMap] at h
+      obtain ⟨rs, hrs, hr'⟩ := h
+      exact mem_zoneOf.2 (Or.inl (List.mem_flatMap.2 ⟨rs, hsub rs hrs, hr'⟩))
+    · exact mem_zoneOf.2 (Or.inr h)
+  have := axfr_converges o ⟨v.soa, v.body.eraseIdx i⟩ z0 ser msgs hb' hco' hc
+  exact ⟨this.1, this.2.1⟩
+
+/-- **A deletion of an IXFR is dropped**: the difference sequence with one deletion fewer is still a
+difference sequence, the transfer completes (`ixfr_denotes`), and the record stays: the sequence then
+yields what it should have yielded, plus that record. -/
+theorem fault_drop_deletion_denotes (o : Name) (w : Zone) (st : Step) (d : RR) (hnd : st.dels.Nodup)
+    (hd : d ∈ st.dels) (r : RR) :
+    r ∈ applyStep o w ⟨st.dels.erase d, st.soa, st.adds⟩ ↔
+      r ∈ applyStep o w st ∨ (r = d ∧ d ∈ w ∧ ¬ (d.owner = o ∧ d.rdtype = soaType)) := by
+  rw [mem_applyStep, mem_applyStep]
+  simp only [hnd.mem_erase_iff]
+  constructor
+  · rintro (⟨⟨hw, hn⟩, hk⟩ | h | h)
+    · by_cases hrd : r = d
+      · right; subst hrd; exact ⟨rfl, hw, hk⟩
+      · left; left; exact ⟨⟨hw, fun hin => hn ⟨hrd, hin⟩⟩, hk⟩
+    · exact Or.inl (Or.inr (Or.inl h))
+    · exact Or.inl (Or.inr (Or.inr h))
+  · rintro ((⟨⟨hw, hn⟩, hk⟩ | h | h) | ⟨rfl, hw, hk⟩)
+    · exact Or.inl ⟨⟨hw, fun hin => hn hin.2⟩, hk⟩
+    · exact Or.inr (Or.inl h)
+    · exact Or.inr (Or.inr h)
+    · exact Or.inl ⟨⟨hw, fun hin => hin.1 rfl⟩, hk⟩
+
+/-- **The last deletion and the SOA after it change places** (a swap across the delete/add boundary): the
+stream is, rrset for rrset, the response whose difference sequence deletes one record fewer and adds it
+instead — accepted (`ixfr_denotes`), and the sequence yields what it should have yielded plus that record. -/
+theorem fault_swap_deletion_across_boundary (o : Name) (cur : Soa) (dels : List RR) (d : RR) (soa : Soa) (adds : List RR)
+    (rest : List Step) (w : Zone) :
+    ixfrSteps o cur (⟨dels, soa, d :: adds⟩ :: rest) =
+        soaRR o cur :: (dels.map single ++ (soaRR o soa :: single d :: (adds.map single ++ ixfrSteps o soa rest))) ∧
+      ixfrSteps o cur (⟨dels ++ [d], soa, adds⟩ :: rest) =
+        soaRR o cur :: (dels.map single ++ (single d :: soaRR o soa :: (adds.map single ++ ixfrSteps o soa rest))) ∧
+      ∀ r, r ∈ applyStep o w ⟨dels, soa, d :: adds⟩ ↔ r ∈ applyStep o w ⟨dels ++ [d], soa, adds⟩ ∨ r = d := by
+  refine ⟨by simp [ixfrSteps], by simp [ixfrSteps], fun r => ?_⟩
+  rw [mem_applyStep, mem_applyStep]
+  simp only [List.mem_append, List.mem_cons, not_or, List.not_mem_nil, or_false]
+  constructor
+  · rintro (⟨⟨hw, hn⟩, hk⟩ | h | h | h)
+    · by_cases hrd : r = d
+      · exact Or.inr hrd
+      · exact Or.inl (Or.inl ⟨⟨hw, hn, hrd⟩, hk⟩)
+    · exact Or.inl (Or.inr (Or.inl h))
+    · exact Or.inr h
+    · exact Or.inl (Or.inr (Or.inr h))
+  · rintro ((⟨⟨hw, hn, _⟩, hk⟩ | h | h) | h)
+    · exact Or.inl ⟨⟨hw, hn⟩, hk⟩
+    · exact Or.inr (Or.inl h)
+    · exact Or.inr (Or.inr (Or.inr h))
+    · exact Or.inr (Or.inr (Or.inl h))
+
+/-- **Wrong base serial**: a valid IXFR response for a chain that starts at `cur`, received by a client
+that asked for a different serial `b` (and is neither up to date nor ahead): `FormError` (base serial
+mismatch) at the first difference sequence, whatever the division into messages; zone exactly as before. -/
+theorem fault_wrong_base_serial (o : Name) (cur : Soa) (steps : List Step) (z0 : Zone) (b : Nat)
+    (msgs : List Msg) (hne : steps ≠ []) (hcur : cur.rdata ≠ (lastSoa cur steps).rdata)
+    (hb1 : b ≠ cur.rdata.serial) (hb2 : (lastSoa cur steps).rdata.serial ≠ b)
+    (hb3 : serialLt (lastSoa cur steps).rdata.serial b = false)
+    (hc : Chunks ⟨some o, ixfrType, some b, false⟩ (ixfrStream o cur steps) msgs) :
+    run true ⟨some o, ixfrType, some b, false⟩ z0 msgs = ⟨some .FormError, z0⟩ := by
+  cases steps with
+  | nil => exact absurd rfl hne
+  | cons st rest =>
+    have hshape : ixfrStream o cur (st :: rest) =
+        soaRR o (lastSoa cur (st :: rest)) :: (([] ++ []) ++ soaRR o cur ::
+          (st.dels.map single ++ (soaRR o st.soa :: (st.adds.map single ++ ixfrSteps o st.soa rest)) ++
+            [soaRR o (lastSoa cur (st :: rest))])) := by
+      simp [ixfrStream, ixfrSteps]
+    rw [hshape] at hc
+    have hf : flatRun ⟨some o, ixfrType, some b, false⟩ z0 (soaRR o (lastSoa cur (st :: rest)) :: []) =
+        .ok (mid o ixfrType true (some b) false (soaRR o (lastSoa cur (st :: rest))) true false ⟨z0, false⟩ z0) := by
+      simp [flatRun, Inbound.init, firstSoa, openTxn, writer, mid, hb2, hb3, procAnswers]
+    have hB : procAnswers false (mid o ixfrType true (some b) false (soaRR o (lastSoa cur (st :: rest))) true false
+        ⟨z0, false⟩ z0) [] = .ok _ := rfl
+    exact raise_at rfl hf hB rfl (mid_soa_mismatch (fun h => hb1 h.symm)) hc
 
 /-! ## RFC 1982 comparison and the query helpers -/
 
@@ -420,29 +613,38 @@ theorem extract_of_make (origin : Option Name) (z : Zone) (ser : Option Int) (t 
 /-! ## non-vacuity -/
 
 def exO : Name := [[101, 120], []]
-def exV0 : Version := ⟨⟨4294967294, 0⟩, [⟨exO, 2, [⟨0, 1⟩]⟩, ⟨[[97], [101, 120], []], 1, [⟨0, 2⟩, ⟨0, 3⟩]⟩]⟩
-def exV1 : Version := ⟨⟨4294967295, 0⟩, [⟨exO, 2, [⟨0, 1⟩]⟩, ⟨[[97], [101, 120], []], 1, [⟨0, 3⟩]⟩, ⟨[[98], [101, 120], []], 28, [⟨0, 4⟩]⟩]⟩
-def exV2 : Version := ⟨⟨1, 7⟩, [⟨exO, 2, [⟨0, 1⟩]⟩, ⟨[[98], [101, 120], []], 28, [⟨0, 4⟩, ⟨0, 5⟩]⟩]⟩
+def exA : Name := [[97], [101, 120], []]
+def exB : Name := [[98], [101, 120], []]
+/-- v0: apex NS; a has two A records (TTL 300) -/
+def exV0 : Version := ⟨⟨⟨4294967294, 0⟩, 3600⟩, [⟨exO, 2, 300, [⟨0, 1⟩]⟩, ⟨exA, 1, 300, [⟨0, 2⟩, ⟨0, 3⟩]⟩]⟩
+/-- v1: a's A rrset is replaced by a CNAME (delete, then add); b appears; serial 2^32-1 -/
+def exV1 : Version := ⟨⟨⟨4294967295, 0⟩, 3600⟩, [⟨exO, 2, 300, [⟨0, 1⟩]⟩, ⟨exA, 5, 60, [⟨0, 9⟩]⟩, ⟨exB, 28, 300, [⟨0, 4⟩]⟩]⟩
+/-- v2: the TTL of b's AAAA rrset changes and it grows; the serial wraps to 1; the SOA's other fields change -/
+def exV2 : Version := ⟨⟨⟨1, 7⟩, 600⟩, [⟨exO, 2, 300, [⟨0, 1⟩]⟩, ⟨exA, 5, 60, [⟨0, 9⟩]⟩, ⟨exB, 28, 60, [⟨0, 4⟩, ⟨0, 5⟩]⟩]⟩
 
-/-- the hypotheses of `ixfr_converges` are met by a two-step chain (one record removed, rrsets added and
-extended; serials wrapping around 2^32), cut into three messages, and the model indeed ends in the last version -/
-example : exV1.soa ≠ exV2.soa ∧ serialLt exV2.soa.serial exV0.soa.serial = false ∧
-    BodyOk exO exV0.body ∧ (recsOfAll exV1.body).Nodup ∧
+instance (z : Zone) : Decidable (Coherent z) := by unfold Coherent; infer_instance
+
+/-- the hypotheses of `ixfr_converges` are met by a two-step chain in which an A rrset is replaced by a
+CNAME, a TTL changes and the serial wraps around 2^32; cut into three messages, the model ends in the last
+version (records with TTLs) -/
+example : exV1.soa.rdata ≠ exV2.soa.rdata ∧ serialLt exV2.soa.rdata.serial exV0.soa.rdata.serial = false ∧
+    Coherent (zoneOf exO exV0) ∧ Coherent (zoneOf exO exV1) ∧ Coherent (zoneOf exO exV2) ∧
+    (recsOfAll exV1.body).Nodup ∧
     (let recs := ixfrStream exO exV0.soa (diffSteps exV0 [exV1, exV2])
      let msgs : List Msg := [⟨0, [], recs.take 2⟩, ⟨0, [(exO, ixfrType)], (recs.drop 2).take 3⟩, ⟨0, [], recs.drop 5⟩]
-     recs.length = 10 ∧ run false ⟨some exO, ixfrType, some 4294967294, false⟩ (zoneOf exO exV0) msgs =
-       ⟨none, putSoa exO (applyAll exO (zoneOf exO exV0) (diffSteps exV0 [exV1, exV2])) exV2.soa⟩) := by
-  refine ⟨by decide, by decide, ?_, by decide, by decide⟩
-  intro rs hrs
-  simp only [exV0, List.mem_cons, List.not_mem_nil, or_false] at hrs
-  rcases hrs with rfl | rfl <;> decide
+     (run true ⟨some exO, ixfrType, some 4294967294, false⟩ (zoneOf exO exV0) msgs).err = none ∧
+     ∀ r ∈ zoneOf exO exV2, r ∈ (run true ⟨some exO, ixfrType, some 4294967294, false⟩ (zoneOf exO exV0) msgs).zone) := by
+  decide
 
-/-- D11 at a concrete witness (the corpus case): shipped code commits and raises, repaired code only raises -/
+/-- an incoherent "version" (A next to a CNAME) is not a counterexample: `Coherent` refuses it -/
+example : ¬ Coherent [⟨exA, 1, ⟨0, 2⟩, 300⟩, ⟨exA, 5, ⟨0, 9⟩, 300⟩] := by decide
+
+/-- surplus after the final SOA in the same message: refused before committing (the former defect D11) -/
 example :
-    let soa := soaRR exO ⟨2, 0⟩
-    let m : Msg := ⟨0, [], [soa, ⟨exO, 2, [⟨0, 1⟩]⟩, soa, ⟨[[120], [101, 120], []], 1, [⟨0, 9⟩]⟩]⟩
-    run false ⟨some exO, axfrType, none, false⟩ [] [m] = ⟨some .FormError, [⟨exO, 2, ⟨0, 1⟩⟩, ⟨exO, 6, ⟨2, 0⟩⟩]⟩ ∧
-    run true ⟨some exO, axfrType, none, false⟩ [] [m] = ⟨some .FormError, []⟩ := by
+    let soa := soaRR exO ⟨⟨2, 0⟩, 300⟩
+    let m : Msg := ⟨0, [], [soa, ⟨exO, 2, 300, [⟨0, 1⟩]⟩, soa, ⟨[[120], [101, 120], []], 1, 300, [⟨0, 9⟩]⟩]⟩
+    run true ⟨some exO, axfrType, none, false⟩ [] [m] = ⟨some .FormError, []⟩ ∧
+    (run false ⟨some exO, axfrType, none, false⟩ [] [m]).zone ≠ [] := by
   decide
 
 end C13
